@@ -60,8 +60,8 @@ def sh(cmd, timeout=600, cwd=None, env=None, inp=None):
 
 def ensure_static_build():
     """The hand-written theories and drivers are built by setup.sh; build them here (under a
-    lock) if a check is started before setup or after a theory file changed."""
-    stamp_needed = False
+    lock, incrementally, keep-going) if a check is started before setup or after a theory
+    file changed.  A file that fails to build makes the check that needs it fail, nothing else."""
     marker = os.path.join(BUILD, "setup.ok")
     newest_src = 0.0
     for base in (THEORIES, os.path.join(ROOT, "ocaml")):
@@ -69,21 +69,13 @@ def ensure_static_build():
             for f in fs:
                 if f.endswith((".v", ".ml")):
                     newest_src = max(newest_src, os.path.getmtime(os.path.join(d, f)))
-    if not os.path.exists(marker) or os.path.getmtime(marker) < newest_src:
-        stamp_needed = True
-    if not stamp_needed:
+    if os.path.exists(marker) and os.path.getmtime(marker) >= newest_src:
         return
     os.makedirs(BUILD, exist_ok=True)
-    with open(os.path.join(BUILD, "setup.lock"), "w") as lk:
-        fcntl.flock(lk, fcntl.LOCK_EX)
-        if os.path.exists(marker) and os.path.getmtime(marker) >= newest_src:
-            return
-        rc, out, err = sh([os.path.join(ROOT, "setup.sh")], timeout=3600, cwd=ROOT)
-        if rc != 0:
-            sys.stdout.write(out + err)
-            raise SystemExit("static build failed")
-        with open(marker, "w") as f:
-            f.write(str(time.time()))
+    rc, out, err = sh([os.path.join(ROOT, "setup.sh")], timeout=3600, cwd=ROOT,
+                      env=dict(os.environ, VERIF_SETUP_KEEP_GOING="1"))
+    if "INCOMPLETE" in out:
+        sys.stderr.write(out[-3000:] + err[-1000:])
 
 
 class Ctx:
@@ -111,12 +103,14 @@ class Ctx:
         self.extra = {}
         self.dist = {}
         self.notes = []
-        self.bdir = os.path.join(BUILD, prop)
+        self.scratch_repo = REPO != "/repo"
+        self.bdir = os.path.join(BUILD, prop + ("__" + hashlib.sha1(REPO.encode()).hexdigest()[:8] if self.scratch_repo else ""))
         os.makedirs(self.bdir, exist_ok=True)
-        kf = os.path.join(ROOT, "KNOWN_FINDINGS.json")
         self.known = []
-        if os.path.exists(kf):
-            self.known = [r for r in json.load(open(kf))["findings"] if r["property"] == prop]
+        import glob as _glob
+        for kf in [os.path.join(ROOT, "KNOWN_FINDINGS.json")] + sorted(_glob.glob(os.path.join(ROOT, "known_findings.d", "*.json"))):
+            if os.path.exists(kf):
+                self.known += [r for r in json.load(open(kf))["findings"] if r["property"] == prop]
 
     # ---------------------------------------------------------------- sizes
     def size(self, quick, thorough):
@@ -241,7 +235,7 @@ class Ctx:
             self.broken.append(tie)
 
     def write_replay(self, payload):
-        d = os.path.join(ROOT, "replays", self.prop)
+        d = os.path.join(self.bdir, "replays") if self.scratch_repo else os.path.join(ROOT, "replays", self.prop)
         os.makedirs(d, exist_ok=True)
         blob = json.dumps(payload, sort_keys=True, default=str, indent=1)
         h = hashlib.sha1(blob.encode()).hexdigest()[:12]
@@ -299,8 +293,9 @@ class Ctx:
             "violations": len(reported) + (1 if (self.broken and not self.violations) else 0),
         }
         if not self.replay_path:
-            os.makedirs(os.path.join(ROOT, "evidence"), exist_ok=True)
-            with open(os.path.join(ROOT, "evidence", self.prop + ".json"), "w") as f:
+            evdir = self.bdir if self.scratch_repo else os.path.join(ROOT, "evidence")
+            os.makedirs(evdir, exist_ok=True)
+            with open(os.path.join(evdir, self.prop + ".json"), "w") as f:
                 json.dump(ev, f, indent=1, default=str)
         for ln in lines:
             print(ln)
